@@ -63,7 +63,6 @@ func VerifChoiceResolverBestCase() {
 			}
 		}
 	}
-	verifrt.MapOrderNondet(true)
 	for _, e := range elems {
 		if e.pop {
 			r.SetValue(e.name, e.val, e.isNew)
@@ -72,13 +71,18 @@ func VerifChoiceResolverBestCase() {
 			r.SetValue(e.name, math.MaxInt32, false)
 		}
 	}
+	// the iteration order over the cases is arbitrary (Go map); the order over the
+	// members of one case cannot matter for a minimum and is left as the engine has it
+	verifrt.MapOrderNondet(true)
 	best := r.getBestCaseName()
+	verifrt.MapOrderNondet(false)
 	oldBest := r.getOldBestCaseName()
 	skip := r.GetSkipElements()
-	verifrt.MapOrderNondet(false)
+	best2 := r.getBestCaseName()
 	verifrt.Reach("resolved")
 
 	v08CheckBest(elems, best, false, "C08-kernel-best-case")
+	v08CheckBest(elems, best2, false, "C08-kernel-best-case")
 	v08CheckBest(elems, oldBest, true, "C08-kernel-old-best-case")
 
 	// skip list: exactly the members of the other cases
@@ -96,7 +100,7 @@ func VerifChoiceResolverBestCase() {
 					in = true
 				}
 			}
-			verifrt.Assert(in == (e.cas != best), "C08-kernel-skip-elements-are-the-other-cases")
+			verifrt.Assert(in == (e.cas != best2), "C08-kernel-skip-elements-are-the-other-cases")
 		}
 	}
 }
